@@ -65,6 +65,17 @@ def dataset(rnd, big):
         cmds.append([b'EXPIRE', b'hlong', b'500'])
         cmds.append([b'SET', b'short', b'gone'])
         cmds.append([b'RPUSH', b'lshort', b'a'])
+        # a key of EVERY type whose deadline passes while the server is down (set right before SAVE), and one that stays
+        for pre in (b'short:', b'long:'):
+            cmds.append([b'SET', pre + b'string', b'v'])
+            cmds.append([b'RPUSH', pre + b'list', b'a', b'b'])
+            cmds.append([b'SADD', pre + b'set', b'a', b'b'])
+            cmds.append([b'HSET', pre + b'hash', b'f', b'v'])
+            cmds.append([b'ZADD', pre + b'zset', b'1', b'a', b'2', b'b'])
+            cmds.append([b'XADD', pre + b'stream', b'1-1', b'f', b'v'])
+            cmds.append([b'XADD', pre + b'stream', b'2-1', b'g', b'w'])
+        for ty in (b'string', b'list', b'set', b'hash', b'zset', b'stream'):
+            cmds.append([b'EXPIRE', b'long:' + ty, b'900'])
     return cmds
 
 
@@ -84,6 +95,8 @@ def round_trip(ctx, i, big):
             s.cmd(c, B('SELECT', d))
             s.cmd(c, [b'PEXPIRE', b'short', b'1200'])
             s.cmd(c, [b'PEXPIRE', b'lshort', b'1300'])
+            for ty in (b'string', b'list', b'set', b'hash', b'zset', b'stream'):
+                s.cmd(c, [b'PEXPIRE', b'short:' + ty, b'1250'])
         s.cmd(c, [b'SAVE'])
         s.close(c)
         srv.kill()
